@@ -332,6 +332,7 @@ func (g *gen) run() {
 
 	// unit axioms and requires
 	env0 := g.entryEnv()
+	env0.assuming = true
 	for _, ax := range g.unit.Axioms {
 		g.assume(g.specBool(env0, ax))
 	}
@@ -591,6 +592,7 @@ func (g *gen) doLoopHead(ci *cfgInfo, h *ssa.BasicBlock, conds []string, preds [
 	// assume invariants
 	if spec != nil {
 		e := g.loopEnv(h, phiVals, g.cur)
+		e.assuming = true
 		for _, inv := range spec.Invariants {
 			g.assume(implies(g.curReach, g.specBool(e, inv)))
 		}
